@@ -205,8 +205,8 @@ func OracleC01(w *World, h *History) {
 	for _, id := range h.RPCIDs {
 		r := h.RPCs[id]
 		p := r.Plan
-		if p == nil {
-			continue
+		if p == nil || p.Role == "raw" {
+			continue // one end of a raw-peer RPC is a script, not an application
 		}
 		if len(r.Handlers) > 0 {
 			overl++
